@@ -20,7 +20,7 @@ import (
 
 func TestMain(m *testing.M) { ev.Main(m) }
 
-const rule = "case = (pattern, Go syntax tree); the pattern is derived from the tree by random abstraction (exact node / _ / name@p / bare name / Or with corrupted alternatives / Not / list forms) so most patterns match; non-trivial = the match succeeds AND in the reference evaluation at least one Or alternative or Not operand bound a name and was then discarded; distinct by hash of (explicit pattern text, source)"
+const rule = "case = (pattern, Go syntax tree); the pattern is derived from the tree by random abstraction (exact node / _ / name@p / bare name / Or with corrupted alternatives / Not / list forms) so most patterns match; non-trivial = the match succeeds AND in the reference evaluation at least one Or alternative or Not operand bound a name and was then discarded; one case in three is widened with 1-59 filler names that are numbered before the pattern's own names, each bound once inside a Not and discarded (classes wide_names, wide_names_ge32; such a case is non-trivial when it matches, its discards being at bit positions up to 63); distinct by hash of (explicit pattern text, source)"
 
 // ---------------------------------------------------------------- source generator
 
@@ -454,6 +454,7 @@ type Case struct {
 	Pattern *PNode `json:"pattern"`
 	Short   string `json:"pattern_shorthand"`
 	Expl    string `json:"pattern_explicit"`
+	Wide    int    `json:"filler_names,omitempty"` // number of filler names numbered before the pattern's own
 }
 
 func parseTarget(kind, src string) (*token.FileSet, ast.Node, error) {
@@ -570,6 +571,12 @@ func evaluate(c *Case) (msg string, nontrivial bool, classes []string, skip stri
 	if c.Short != c.Expl {
 		classes = append(classes, "spellings_differ")
 	}
+	if c.Wide > 0 {
+		classes = append(classes, "wide_names")
+		if c.Wide >= 32 {
+			classes = append(classes, "wide_names_ge32")
+		}
+	}
 	return msg, mok && md.rolledBack > 0, classes, ""
 }
 
@@ -593,6 +600,26 @@ func genCase(t *rapid.T) *Case {
 	if c.Pattern.K != "node" && c.Pattern.K != "or" && c.Pattern.K != "not" {
 		// the root of a pattern text must be a parenthesised node
 		c.Pattern = &PNode{K: "or", Args: []*PNode{c.Pattern}}
+	}
+	// wide patterns: the statement quantifies over up to 64 names, and the
+	// matcher keeps one bit per name. One case in three gets k filler names
+	// that are parsed (and so numbered) before the names of the pattern
+	// proper: (Or (Not (Or (Not f00) .. (Not f<k-2>) f<k-1>)) P). Every filler
+	// is bound once and discarded again, so the whole match behaves like P
+	// while P's own names sit at bit positions k..k+4.
+	if rapid.IntRange(0, 2).Draw(t, "wide") == 0 {
+		k := rapid.IntRange(1, 64-len(namePool)).Draw(t, "fillers")
+		var alts []*PNode
+		for i := 0; i < k; i++ {
+			f := &PNode{K: "bind", S: fmt.Sprintf("f%02d", i)}
+			if i < k-1 {
+				f = &PNode{K: "not", Args: []*PNode{f}}
+			}
+			alts = append(alts, f)
+		}
+		prefix := &PNode{K: "not", Args: []*PNode{{K: "or", Args: alts}}}
+		c.Pattern = &PNode{K: "or", Args: []*PNode{prefix, c.Pattern}}
+		c.Wide = k
 	}
 	c.Short = c.Pattern.render(false)
 	c.Expl = c.Pattern.render(true)
